@@ -28,11 +28,12 @@ Expected(impl) == IF impl.expd THEN MinDepthX(G) ELSE MinDepth(G)
 DistBad(impl) == {c \in Registered(impl) : c \notin DOMAIN impl.dist \/ impl.dist[c] # Expected(impl)[c]}
 \* root causes: wrong classes all of whose mentioned symbols are right
 DistRoots(impl) == {c \in DistBad(impl) : Mentions(G, c) \cap DistBad(impl) = {}}
-DistApplies(impl) == ~impl.expd \/ SimpleGrammar(G)
+DistApplies(impl) == TRUE         \* both depth-counting modes, every form
 
 \* diagnosis: the smallest set of named deviations (GEGrammar!Deviations) under which the
 \* specification reproduces the implementation's numbers; "unexplained" if there is none
-Explains(impl, Dev) == \A c \in Registered(impl) : c \in DOMAIN impl.dist /\ impl.dist[c] = MinDepthV(G, Dev)[c]
+Explains(impl, Dev) == \A c \in Registered(impl) : c \in DOMAIN impl.dist /\
+                           impl.dist[c] = (IF impl.expd THEN MinDepthXV(G, Dev) ELSE MinDepthV(G, Dev))[c]
 DevOrder == <<"bool-costs-1", "union-max", "list-assumed-nonempty">>
 DevSig(Dev) == LET RECURSIVE Go(_)
                    Go(i) == IF i > Len(DevOrder) THEN ""
@@ -42,11 +43,11 @@ DevSig(Dev) == LET RECURSIVE Go(_)
 DevWeight(Dev) == (IF "list-assumed-nonempty" \in Dev THEN 1 ELSE 0) + (IF "union-max" \in Dev THEN 2 ELSE 0)
                   + (IF "bool-costs-1" \in Dev THEN 4 ELSE 0)
 DistSig(impl) ==
-    IF impl.expd THEN <<"expansion", "unexplained">>
-    ELSE LET cands == {Dev \in SUBSET Deviations : Explains(impl, Dev)}
-         IN IF cands = {} THEN <<"default", "unexplained">>
-            ELSE LET k == SMin({DevWeight(Dev) : Dev \in cands})        \* deterministic choice
-                 IN <<"default", DevSig(CHOOSE Dev \in cands : DevWeight(Dev) = k)>>
+    LET mode  == IF impl.expd THEN "expansion" ELSE "default"
+        cands == {Dev \in SUBSET Deviations : Explains(impl, Dev)}
+    IN IF cands = {} THEN <<mode, "unexplained">>
+       ELSE LET k == SMin({DevWeight(Dev) : Dev \in cands})        \* deterministic choice
+            IN <<mode, DevSig(CHOOSE Dev \in cands : DevWeight(Dev) = k)>>
 
 KindOrder == <<"list", "union", "tuple", "sym", "ann:ListSize">>
 KindSig(S) == LET RECURSIVE Go(_)
